@@ -207,6 +207,12 @@ func secondOpinion(id, tier string, opt LoadOptions, p *Program, r *Report, cach
 	if os.Getenv("ANKO_NOEXPAND") != "" {
 		return
 	}
+	defer func() {
+		// the second opinion can only discharge obligations: if it fails itself, the verdicts of the program as written stand
+		if e := recover(); e != nil {
+			r.Note("helper_expansion", fmt.Sprintf("the second opinion did not complete (%v): verdicts are those of the program as written", e))
+		}
+	}()
 	bad := r.failingRules()
 	if len(bad) == 0 {
 		return
